@@ -72,7 +72,7 @@ OBLIGATIONS = [
              "the last one) from the uploadable, cuts them into k equal pieces in order, zero-pads the last, and the encoder returns one block "
              "per share number",
         outside="salts, AES, block hashes"),
-    chx("update_stitch", "C09_h", "h_update_stitch", timeout=T, tiers=("thorough",),
+    chx("update_stitch", "C09_h", "h_update_stitch", timeout={"quick": 120, "thorough": 2400}, tiers=("thorough",),
         cases={"thorough": [{"k": 1, "maxseg": 4, "_label": "k1-max4"}, {"k": 2, "maxseg": 131072, "_label": "k2-max131072"}]},
         desc="in-place MDMF update end to end at the data level: real _update -> _do_update_update -> _build_uploadable_and_finish -> "
              "TransformingUploadable -> Publish.setup_encoding_parameters -> Publish._encode_segment for an arbitrary pushed segment j from the "
